@@ -168,6 +168,7 @@ def hypsB (K : Bytes) (db : DB) (t : Tape) (absent : List Bytes) : Bool :=
     -- `setup_never_raises`: a sample of range(1, |A|), an addressable array, lists within the two-level limit
     avail.all (· < arrayLen cfg db) && decide (arrayLen cfg db ≤ 2 ^ (cfg.idxSize * 8).toNat) &&
     db.all (fun p => decide ((p.2.length : Int) < (cfg.B * cfg.Bp) * cfg.bp)) &&
+    db.all (fun p => p.2.all fun x => x.length == cfg.idSize.toNat) &&   -- C05 (`Pi2Lev.shape`): identifiers of the configured size
     match encDb cfg lv K db avail (List.replicate (arrayLen cfg db) none) t0 with
     | .error _ => false
     | .ok (L, _, _) =>
